@@ -387,6 +387,15 @@ func (vm *VirtualMachine) eval(ctx context.Context) error {
 		case op.MakeCell:
 			symbolIndex := vm.fetch()
 			framesBack := int(vm.fetch())
+			if framesBack == op.MakeCellFromFree {
+				// The cell is one the running function has captured itself
+				freeVars := vm.activeFrame.fn.FreeVars()
+				if int(symbolIndex) >= len(freeVars) {
+					return errz.EvalErrorf("eval error: no free variable %d", symbolIndex)
+				}
+				vm.push(freeVars[symbolIndex])
+				continue
+			}
 			frameIndex := vm.fp - framesBack
 			if frameIndex < 0 {
 				return errz.EvalErrorf("eval error: no frame at depth %d", framesBack)
